@@ -81,6 +81,8 @@ CHECKS = {
             part("c15a", "pkg/webhook/conversion", "TestVerifC15a", ["zz_verif_c15_test.go"], shards={"quick": 8, "thorough": 16},
                  instrument={"files": [{"path": "pkg/webhook/conversion/chain.go",
                                         "mapranges": ["c.PathsCache", "c.BaseFromToIndex", "c.BaseFromToIndex[k]", "c.BaseFromToIndex[fromVer]", "newPaths"]}]}),
+            part("c15b", "pkg/shell-operator", "TestVerifC15b", ["zz_verif_c15_test.go", "zz_verif_fixture_test.go"], shards={"quick": 6, "thorough": 6},
+                 extra=FX_EXTRA, instrument=FX_INSTR),
         ],
     },
     "C11": {
